@@ -1011,11 +1011,12 @@ fn trigger_update<M: AsRef<[Machine]>>(
                     duration, machine
                 );
                 // get current internal timer duration, if any
-                let current =
-                    state.scheduled_internal_timer[machine.into_raw()].unwrap_or(*current_time);
+                let running = state.scheduled_internal_timer[machine.into_raw()];
+                let current = running.unwrap_or(*current_time);
 
-                // update the timer
-                if *replace || current < *current_time + *duration {
+                // update the timer: also when no timer is running, even for
+                // a zero duration (the timer then expires at once)
+                if *replace || running.is_none() || current < *current_time + *duration {
                     state.scheduled_internal_timer[machine.into_raw()] =
                         Some(*current_time + *duration);
                     // TimerBegin event
